@@ -221,7 +221,7 @@ var allAdmin = sim.AdminTypes
 
 var C04 = register(&HistProp{ID: "C04",
 	Genesis: func(t *rapid.T) *sim.GenSpec {
-		return sim.DrawGenesis(t, sim.GenOpts{UpperPairGen: true, MixedDenom: true})
+		return sim.DrawGenesis(t, sim.GenOpts{UpperPairGen: true, MixedDenom: true, ManyUsed: true})
 	},
 	Next: func(g *sim.G, i int) *sim.Op {
 		if op := queuedOp(g); op != nil {
@@ -233,7 +233,7 @@ var C04 = register(&HistProp{ID: "C04",
 				return ops[0]
 			}
 		}
-		return Mix{Recv: 12, Replay: 2, Send: 2, Dep: 3, Replace: 1, RepDep: 1, Admin: 4, Ledger: 2, Multi: 1, Restart: 3,
+		return Mix{Recv: 12, Replay: 2, Send: 2, Dep: 3, Replace: 1, RepDep: 1, Admin: 4, Ledger: 2, Multi: 1, Restart: 3, Rollback: 3,
 			RecvBroken: 25, DepValid: 80, ReplaceValid: 80, AdminHolder: 85, FaultPct: 4, AdminTypes: allAdmin}.next(g)
 	},
 	MinOps: 3, MaxOps: 30, New: func() Checker { return &c04{} },
@@ -450,7 +450,7 @@ var C05 = register(&HistProp{ID: "C05",
 	},
 	Next: func(g *sim.G, i int) *sim.Op {
 		g.NoForge = true
-		return Mix{Dep: 12, Send: 3, Replace: 2, RepDep: 4, Recv: 2, Admin: 3, Ledger: 2, Multi: 1, Restart: 2,
+		return Mix{Dep: 12, Send: 3, Replace: 2, RepDep: 4, Recv: 2, Admin: 3, Ledger: 2, Multi: 1, Restart: 2, Rollback: 3,
 			RecvBroken: 20, DepValid: 75, ReplaceValid: 85, AdminHolder: 85, FaultPct: 5, AdminTypes: allAdmin}.next(g)
 	},
 	MinOps: 4, MaxOps: 30, New: func() Checker { return &c05{} },
@@ -657,7 +657,7 @@ var C06 = register(&HistProp{ID: "C06",
 	},
 	Next: func(g *sim.G, i int) *sim.Op {
 		g.NoForge = true
-		return Mix{Send: 8, Dep: 8, Replace: 3, RepDep: 4, Admin: 2, Multi: 1, DepValid: 90, ReplaceValid: 90, AdminHolder: 90,
+		return Mix{Send: 8, Dep: 8, Replace: 3, RepDep: 4, Admin: 2, Multi: 1, DepValid: 90, ReplaceValid: 90, AdminHolder: 90, Rollback: 3,
 			AdminTypes: []string{"UpdateMaxMessageBodySize", "AddRemoteTokenMessenger", "RemoveRemoteTokenMessenger", "SetMaxBurnAmountPerMessage", "EnableAttester", "UpdateSignatureThreshold"}}.next(g)
 	},
 	MinOps: 1, MaxOps: 20, New: func() Checker { return &c06{} },
@@ -779,7 +779,7 @@ func (c *c09) Summary(w *sim.World) (string, []string) {
 var C09 = register(&HistProp{ID: "C09",
 	Genesis: func(t *rapid.T) *sim.GenSpec { return sim.DrawGenesis(t, sim.GenOpts{BigBalances: true, Decoys: true}) },
 	Next: func(g *sim.G, i int) *sim.Op {
-		return Mix{Send: 5, Dep: 5, Replace: 7, RepDep: 7, Admin: 4, DepValid: 92, ReplaceValid: 50, AdminHolder: 90,
+		return Mix{Send: 5, Dep: 5, Replace: 7, RepDep: 7, Admin: 4, DepValid: 92, ReplaceValid: 50, AdminHolder: 90, Rollback: 5,
 			AdminTypes: []string{"PauseBurningAndMinting", "UnpauseBurningAndMinting", "UnpauseBurningAndMinting", "PauseSendingAndReceivingMessages", "UnpauseSendingAndReceivingMessages", "UnpauseSendingAndReceivingMessages",
 				"EnableAttester", "DisableAttester", "UpdateSignatureThreshold", "UpdateMaxMessageBodySize"}}.next(g)
 	},
